@@ -195,9 +195,25 @@ def jac_stock(sc):
             pass
         for i in cut:
             ss.Line.alter("u", i, 1)
-        if not ss.PFlow.run():
-            return dict(rec, skipped="pflow after reconnection")
-        rec["history"] = "cut bus %s (%d branches), power flow, reconnect, power flow" % (cand[0][2], len(cut))
+        if sc["history"] == "swap":
+            # ... and another bus is cut off instead: the same number of islanded buses, a different bus; the Jacobian is
+            # examined at the initial point of that state
+            if len(cand) < 2:
+                return dict(rec, skipped="no second bus to cut")
+            cut2 = deg[cand[1][2]]
+            for i in cut2:
+                ss.Line.alter("u", i, 0)
+            # rows of the bus that is cut off now are regularised by the library (residual zero, eps on the diagonal) and are
+            # not compared; the rows of the re-connected bus are
+            uid2 = ss.Bus.idx2uid(cand[1][2])
+            rec["_skip_rows"] = [int(ss.Bus.a.a[uid2]), int(ss.Bus.v.a[uid2])]
+            ss.connectivity(info=False)       # what PFlow.run does before initialising
+            ss.PFlow.init()
+            rec["history"] = "cut bus %s, power flow, reconnect, cut bus %s, initialise" % (cand[0][2], cand[1][2])
+        else:
+            if not ss.PFlow.run():
+                return dict(rec, skipped="pflow after reconnection")
+            rec["history"] = "cut bus %s (%d branches), power flow, reconnect, power flow" % (cand[0][2], len(cut))
     if sc["phase"] == "tds":
         ss.TDS.init()
         if ss.TDS.test_ok is False:
@@ -269,6 +285,8 @@ def jac_stock(sc):
         # the diagonal of gy carries diag_eps regularisation
         if k >= n:
             err[k] = max(0.0, err[k] - 1e-6)
+        for r_skip in rec.get("_skip_rows", []):
+            err[n + r_skip] = 0.0
         e = float(err.max() / scale)
         worst = max(worst, e)
         if e > 1e-4:
@@ -283,6 +301,20 @@ def jac_stock(sc):
     def mv(name):
         parts = name.split()
         return "%s.%s" % (parts[1], parts[0]) if len(parts) >= 2 else name
+    # rows of buses that are cut off (no branch in service; computed from the device tables, not from the library's list):
+    # the library forces their residual to zero and keeps the entries of the devices connected there
+    deg_now = {}
+    for k in range(ss.Line.n):
+        if ss.Line.u.v[k] == 1:
+            for b_ in (ss.Line.bus1.v[k], ss.Line.bus2.v[k]):
+                deg_now[b_] = deg_now.get(b_, 0) + 1
+    cut_rows = set()
+    for k in range(ss.Bus.n):
+        if deg_now.get(ss.Bus.idx.v[k], 0) == 0:
+            cut_rows.update([n + int(ss.Bus.a.a[k]), n + int(ss.Bus.v.a[k])])
+    isl = [b for b in bad_cols if b["row"] in cut_rows and b["fd"] == 0.0]
+    bad_cols = [b for b in bad_cols if not (b["row"] in cut_rows and b["fd"] == 0.0)]
+    rec["cut_off_bus_rows_keep_device_entries"] = sorted({"%s / %s" % (b["rowname"], b["colname"]) for b in isl})[:6]
     pairs = sorted({(mv(b["rowname"]), mv(b["colname"])) for b in bad_cols})
     rec.update(ncols=len(list(cols)), skipped_cols=skipped, fd_ok=bool(not bad_cols), bad=bad_cols[:5], worst=worst, n=n, m=m,
                pairs=[list(p_) for p_ in pairs])
